@@ -965,9 +965,9 @@ package moss
 
 //@ func naiveSeekTo$loops
 //@   loop 1: modifies ptrOf(iter, "*iteratorSingle").op, ptrOf(iter, "*iteratorSingle").k, ptrOf(iter, "*iteratorSingle").v, itCur(ptrOf(iter, "*iteratorSingle")).curr
-//@   loop 1: invariant itOK(ptrOf(iter, "*iteratorSingle"))
-//@   loop 1: invariant forall q int :: itCur(ptrOf(iter, "*iteratorSingle")).start <= q && q < itCur(ptrOf(iter, "*iteratorSingle")).curr ==>
-//@       keyRank(itCur(ptrOf(iter, "*iteratorSingle")).s, q) < rank(seekToKey) || !liveAt(ptrOf(iter, "*iteratorSingle"), q)
+//@   loop 1: invariant typeIs(iter, "*iteratorSingle") ==> itOK(ptrOf(iter, "*iteratorSingle"))
+//@   loop 1: invariant typeIs(iter, "*iteratorSingle") ==> (forall q int :: itCur(ptrOf(iter, "*iteratorSingle")).start <= q && q < itCur(ptrOf(iter, "*iteratorSingle")).curr ==>
+//@       keyRank(itCur(ptrOf(iter, "*iteratorSingle")).s, q) < rank(seekToKey) || !liveAt(ptrOf(iter, "*iteratorSingle"), q))
 
 // SeekTo(x): smallest enumerated in-range position whose key is >= x (and >= the start of the range).
 //@ func (iter *iteratorSingle) SeekTo(seekToKey []byte) error
@@ -1386,6 +1386,28 @@ package moss
 
 // ---- Close is final (C16) ---------------------------------------------------------------------------------------
 
+// ---- reopening: incarnation numbers of restored child collections (C04, C11) -----------------------------
+// The counter a collection hands out new incarnation numbers from is at
+// least as large as the number of every child it already has (a child
+// created later then gets a number no earlier child of that name could have).
+//@ pure func incarOK(m *collection) bool = forall c string :: has(m.childCollections, c) ==> m.childCollections[c].incarNum <= m.highestIncarNum
+
+//@ func NewCollection(options CollectionOptions) (Collection, error)
+//@   trusted allocates an empty collection (no children, counters zero)
+//@   ensures r1 == nil ==> typeIs(r0, "*collection") && ptrOf(r0, "*collection") != nil && fresh(ptrOf(r0, "*collection")) &&
+//@       ptrOf(r0, "*collection").childCollections == nil && ptrOf(r0, "*collection").incarNum == 0 && ptrOf(r0, "*collection").highestIncarNum == 0
+
+//@ func restoreCollection(co *CollectionOptions, storeFooter *Footer) (rv *collection, err error)
+//@   props C04 C11
+//@   attr obligations ensures inv-entry inv-preserve
+//@   requires storeFooter != nil && co != nil
+//@   modifies heap(Footer.incarNum)
+//@   dead coll, ok = newColl.(*collection)
+//@   ensures @incar err == nil ==> rv != nil && rv.incarNum == old(storeFooter.incarNum)
+//@   ensures @counter err == nil ==> rv != nil && fresh(rv) && incarOK(rv) && rv.highestIncarNum >= rv.incarNum
+//@   loop 1: modifies coll.childCollections, coll.highestIncarNum, contents(coll.childCollections), heap(Footer.incarNum)
+//@   loop 1: invariant coll != nil && fresh(coll) && incarOK(coll) && coll.highestIncarNum >= coll.incarNum
+
 // ---- assembling a snapshot from the sections (C01, C02, C03, C13) ------------------------------------------
 
 // References are allocation-ordered: before(x, y) says x was allocated before
@@ -1538,6 +1560,22 @@ package moss
 //@   ensures @kvs r1 == nil ==> len(ptrOf(r0, "*segment").kvs) == sloc.KvsBytes / 8
 //@   ensures @totals r1 == nil ==> ptrOf(r0, "*segment").totOperationSet == sloc.TotOpsSet && ptrOf(r0, "*segment").totOperationDel == sloc.TotOpsDel &&
 //@       ptrOf(r0, "*segment").totKeyByte == sloc.TotKeyByte && ptrOf(r0, "*segment").totValByte == sloc.TotValByte
+
+// Re-positioning an iterator must not release what the iterator was opened
+// on (the closer is the reference the snapshot/footer gave it; Close() alone
+// gives it back).  closerCalls counts Close() calls on io.Closer values.
+//@ ghost var closerCalls int
+//@ func io_Closer.Close
+//@   modifies closerCalls
+//@   ensures @assume_counted closerCalls == old(closerCalls) + 1
+
+//@ func (iter *iterator) SeekTo(seekToKey []byte) error
+//@   props C02 C15 C09
+//@   attr obligations ensures
+//@   attr only-labels noRelease
+//@   requires iter != nil && iter.ss != nil
+//@   modifies *
+//@   ensures @noRelease closerCalls == old(closerCalls)
 
 // The heap iterator may be replaced by a cheaper one only when a single
 // source (one segment, or only the lower level) has entries in the range at
